@@ -24,6 +24,7 @@ import Driver.CQCmd
 import Driver.DzCmd
 import Driver.CircuitBoxCmd
 import Driver.SpidersCmd
+import Driver.SpecialCmd
 
 def handlers : List (String → List String → Option String) :=
   [ DV.CoreCmd.handle
@@ -44,6 +45,7 @@ def handlers : List (String → List String → Option String) :=
   , DV.DzCmd.handle
   , DV.CircuitBoxCmd.handle
   , DV.SpidersCmd.handle
+  , DV.SpecialCmd.handle
   ]
 
 def handle (line : String) : String :=
